@@ -327,6 +327,226 @@ def _rs_symmetry(ctx, f: mirfront.MirFn, sf) -> None:
            "rust/src/python/helpers.rs")
 
 
+
+# ---------------------------------------------------------------------------
+# reference models (Python text) the compiled helper is compared with, path summary by path summary.  Both sides go
+# through the same canonicaliser; integer comparisons are normalised to (<=|>=, quantity, bound).
+
+_REF_SHIFT = """
+def ref(X, XD, in_same_tz, total_days):
+    hour = get_hour(XD)
+    minute = get_minute(XD)
+    second = get_second(XD)
+    microsecond = get_microsecond(XD)
+    offset = X.offset
+    day = X.day
+    rolled = 0
+    if (not in_same_tz and offset != 0) or total_days == 0:
+        hour = hour - offset // SECS_PER_HOUR
+        offset = offset % SECS_PER_HOUR
+        minute = minute - offset // SECS_PER_MIN
+        offset = offset % SECS_PER_MIN
+        second = second - offset
+        if second < 0:
+            second = second + 60
+            minute = minute - 1
+        elif second >= 60:
+            second = second - 60
+            minute = minute + 1
+        if minute < 0:
+            minute = minute + 60
+            hour = hour - 1
+        elif minute >= 60:
+            minute = minute - 60
+            hour = hour + 1
+        if hour < 0:
+            hour = hour + 24
+            day = day - 1
+        elif hour >= 24:
+            hour = hour - 24
+            day = day + 1
+        rolled = 1
+    total_seconds = hour * SECS_PER_HOUR + minute * SECS_PER_MIN + second
+    return (day, hour, minute, second, microsecond, total_seconds, rolled)
+"""
+
+_REF_ROLL = """
+def ref(S):
+    year = S.year
+    month = S.month
+    day = S.day
+    if day < 1:
+        month = month - 1
+        if month < 1:
+            month = 12
+            year = year - 1
+        day = DAYS_PER_MONTHS[is_leap(year)][month]
+    elif day > DAYS_PER_MONTHS[is_leap(year)][month]:
+        day = 1
+        month = month + 1
+        if month > 12:
+            month = 1
+            year = year + 1
+    return (year, month, day)
+"""
+
+
+def _int_cond(c):
+    """('P + k < 0', pol) over integers -> ('le'|'ge', 'P', bound); anything else is kept as is"""
+    s, pol = c
+    mm = re.match(r"^(.*) (<|<=|==) 0$", s) if isinstance(s, str) else None
+    if not mm:
+        return ("raw", str(s), pol)
+    terms = mm.group(1).split(" + ")
+    k = sum(int(t) for t in terms if re.fullmatch(r"-?\d+", t))
+    feat = " + ".join(t for t in terms if not re.fullmatch(r"-?\d+", t))
+    op = mm.group(2)
+    if op == "==":
+        return ("eq" if pol else "ne", feat, -k)
+    if op == "<":
+        return ("le", feat, -k - 1) if pol else ("ge", feat, -k)
+    return ("le", feat, -k) if pol else ("ge", feat, -k + 1)
+
+
+def _ref_summaries(src: str, can: Canon, n_out: int):
+    from .C15 import _conds_at
+    fn = ast.parse(src).body[0]
+    core.link_parents(fn) if hasattr(core, "link_parents") else None
+    out = set()
+    for p in cfg.paths(fn):
+        ex = p.exit()
+        conds = frozenset(_int_cond(c) for c in _conds_at(p, can))
+        vals = tuple(can.s(cfg.subst_path(p, e, set())) for e in ex[2].value.elts)
+        assert len(vals) == n_out
+        out.add((conds, vals))
+    return out
+
+
+def _triage(ctx, rule: str, construct: str, got: set, want: set, what: str, site: str) -> None:
+    if got == want:
+        ctx.ob(rule, construct, True, f"{len(got)} path summaries equal the reference model ({what})", site)
+        return
+    feats = lambda S: {(c[1]) for conds, _ in S for c in conds}     # noqa: E731
+    only_g, only_w = got - want, want - got
+    ex_g = [x[:300] for x in sorted(map(str, only_g))[:1]]
+    ex_w = [x[:300] for x in sorted(map(str, only_w))[:1]]
+    detail = (f"{len(only_g)} path summaries of the compiled code are not in the reference model and {len(only_w)} of the model are "
+              f"missing ({what}); e.g. compiled {ex_g} vs model {ex_w}")
+    if feats(got) == feats(want):
+        ctx.ob(rule, construct, False, detail, site)        # same tested quantities, different thresholds/updates
+    else:
+        ctx.unverified(rule, construct, "the compiled code tests other quantities than the reference model; " + detail, site)
+
+
+def _rs_utc_reference(ctx, mir, f: mirfront.MirFn, sf) -> None:
+    rel = "rust/src/python/helpers.rs"
+    names = f.names()
+    d1, d2 = f.local("dtinfo1"), f.local("dtinfo2")
+    idx = {n: i for i, n in enumerate(sf.get("DateTimeInfo", []))}
+    if not {"day", "month", "is_datetime", "hour", "minute", "second", "microsecond", "total_seconds"} <= set(idx):
+        ctx.unverified("UTCSHIFT.rs", "rs:precise_diff", "DateTimeInfo fields not found", rel)
+        return
+
+    def start_of(dl: str):
+        tag = f"({dl}.{idx['is_datetime']}:"
+        for bi in sorted(f.blocks):
+            b = f.blocks[bi]
+            if b.switch and (b.switch[0].startswith(tag) or any(s.dest == b.switch[0] and s.op == "use" and s.args[0].startswith(tag) for s in b.stmts)):
+                return bi
+        return None
+    s1, s2 = start_of(d1), start_of(d2)
+    if s1 is None or s2 is None:
+        ctx.unverified("UTCSHIFT.rs", "rs:precise_diff", "is_datetime branches not found", rel)
+        return
+    # functions that roll a day over into month/year: callees that write the month field of their &mut argument
+    rollers = {}
+    for name, g in mir.fns.items():
+        if any(s.dest and s.dest.startswith(f"((*_1).{idx['month']}:") for _, s in g.all_stmts()) and "DateTimeInfo" in g.sig:
+            rollers[name] = g
+    can = Canon({names[d1]: "X", "dt1dt": "XD", "dt1": "XARG"})
+    sym = mirsym.Sym(f, sf, atomic={"total_days", "in_same_tz", "sign"})
+    got = set()
+    try:
+        for p in sym.run(s1, {s2}):
+            conds = []
+            isdt = None
+            for v, key in p.conds:
+                cb = mirsym.cond_bool(v, key)
+                if cb is None:
+                    continue
+                c = can.cond(cb[0], cb[1])
+                if c[0] == "X.is_datetime":
+                    isdt = c[1]
+                    continue
+                if "discriminant(" in c[0]:
+                    continue
+                conds.append(_int_cond(c))
+            if not isdt or p.end != s2:
+                continue
+            fld = lambda n: p.state.get(f"FIELD:({d1}.{idx[n]}: i32)")      # noqa: E731
+            vals = [can.s(fld(n)) if fld(n) is not None else f"X.{n}" for n in ("day", "hour", "minute", "second", "microsecond", "total_seconds")]
+            rolled = any(any(r.endswith("::" + mirsym.short_callee(c)) for r in rollers) for c, _a in p.calls)
+            got.add((frozenset(conds), tuple(vals) + ("1" if rolled else "0",)))
+        want = _ref_summaries(_REF_SHIFT, Canon({}), 7)
+        _triage(ctx, "UTCSHIFT.rs", "rs:precise_diff/dt1-to-utc", got, want,
+                "fields minus offset with carries at 60/60/24 into the next unit, then the date rolled over", rel)
+    except (core.Unsupported, AssertionError, AttributeError) as e:
+        ctx.unverified("UTCSHIFT.rs", "rs:precise_diff/dt1-to-utc", str(e), rel)
+    if not rollers:
+        ctx.ob("UTCSHIFT.roll", "rs:precise_diff/day-rollover", False,
+               "no function rolls a day that left its month into the month and year: after the shift to UTC the day can be 0 or one past "
+               "the end of the month, and the month/day components then differ from the pure-Python helper", rel)
+        return
+    for name, g in sorted(rollers.items()):
+        try:
+            canr = Canon({"self": "S"})
+            got = set()
+            for p in mirsym.Sym(g, sf).run(0, mirsym.NEVER):
+                conds = frozenset(_int_cond(canr.cond(*mirsym.cond_bool(v, k))) for v, k in p.conds if mirsym.cond_bool(v, k))
+                vals = []
+                for n in ("year", "month", "day"):
+                    v = p.state.get(f"FIELD:((*_1).{idx[n]}: i32)")
+                    vals.append(canr.s(v) if v is not None else f"S.{n}")
+                got.add((conds, tuple(vals)))
+            want = _ref_summaries(_REF_ROLL, Canon({}), 3)
+            _triage(ctx, "UTCSHIFT.roll", f"rs:{name.rsplit('::', 1)[-1]}", got, want,
+                    "day < 1 -> last day of the previous month, day > month length -> first of the next month, with the year carried", rel)
+        except (core.Unsupported, AssertionError, AttributeError) as e:
+            ctx.unverified("UTCSHIFT.roll", f"rs:{name}", str(e), rel)
+
+
+def _rs_order_key(ctx, mir, sf) -> None:
+    """`if dtinfo1 > dtinfo2 { swap }` decides which end point is the earlier one: the derived order must be the
+    lexicographic order of the complete broken-down time, microsecond included"""
+    rel = "rust/src/python/helpers.rs"
+    ok_keys = (["year", "month", "day", "hour", "minute", "second", "microsecond"], ["year", "month", "day", "total_seconds", "microsecond"])
+    found = 0
+    for name, g in sorted(mir.fns.items()):
+        short = name.rsplit("::", 1)[-1]
+        if short not in ("partial_cmp", "eq", "cmp") or "DateTimeInfo" not in g.sig:
+            continue
+        found += 1
+        try:
+            ps = mirsym.Sym(g, sf).run(0, mirsym.NEVER)
+        except core.Unsupported as e:
+            ctx.unverified("ORDER.key", f"rs:DateTimeInfo::{short}", str(e), rel)
+            continue
+        r = ps[0].state.get("_0") if len(ps) == 1 else None
+        if not (isinstance(r, ast.Call) and len(r.args) == 2 and all(isinstance(a, ast.Tuple) for a in r.args) and un(r.func) == short):
+            ctx.unverified("ORDER.key", f"rs:DateTimeInfo::{short}", f"not a single tuple comparison: {un(r)[:80] if r is not None else len(ps)}", rel)
+            continue
+        sides = []
+        for a, who in zip(r.args, ("self", "other")):
+            sides.append([e.attr if isinstance(e, ast.Attribute) and un(e.value) == who else "?" + un(e) for e in a.elts])
+        ok = sides[0] == sides[1] and sides[0] in ok_keys
+        ctx.ob("ORDER.key", f"rs:DateTimeInfo::{short}", ok,
+               f"end points are ordered by {sides[0]} vs {sides[1]}; the key must be the full broken-down time "
+               f"(year, month, day, hour, minute, second | total_seconds, microsecond) in that order on both sides - a field left out "
+               f"makes a reversed pair that differs only there go unswapped, and its negative difference is then borrowed through every unit", rel)
+    if not found:
+        ctx.unverified("ORDER.key", "rs:DateTimeInfo", "no PartialOrd/PartialEq implementation found in MIR (derived?)", rel)
+
+
 def _backend_switch(ctx) -> None:
     for modname in ("helpers", "parsing"):
         m = pmod(modname)
@@ -397,12 +617,77 @@ def _interval_props(ctx) -> None:
     d = [n for n in core.walk_fn(init) if isinstance(n, (ast.Assign, ast.AnnAssign)) and "self._delta" in un(n)]
     ok = len(d) == 1 and nun(d[0].value) == "precise_diff(_start, _end)"
     ctx.ob("INTERVAL.delta", "Interval.__init__/_delta", ok, f"`{un(d[0]) if d else None}`; must be precise_diff(_start, _end)", m.loc(init))
+    # the native copies handed to precise_diff must carry every field of the end points
+    from ..rules import recon
+    sites = recon.sites_in(m, ["Interval.__init__"])
+    for s in sites:
+        recon.check_site(ctx, s)
+    ctx.count("recon_sites_init", len(sites))
+
+
+def _py_utc_shift(ctx, m: core.Mod, fn: ast.FunctionDef) -> None:
+    """endpoints in differently named zones are decomposed as the same two instants in UTC: each `dK = dK - offsetK`
+    may only be skipped when offsetK itself is zero/None, and the block runs whenever the zone names differ or no whole
+    day separates the end points"""
+    offs = {}       # offset variable -> (endpoint variable, assignment)
+    for n in core.walk_fn(fn):
+        if isinstance(n, ast.Assign) and len(n.targets) == 1 and isinstance(n.targets[0], ast.Name) \
+                and isinstance(n.value, ast.Call) and isinstance(n.value.func, ast.Attribute) and n.value.func.attr == "utcoffset" \
+                and isinstance(n.value.func.value, ast.Name) and not n.value.args:
+            offs[n.targets[0].id] = (n.value.func.value.id, n)
+    if len(offs) != 2 or {v[0] for v in offs.values()} != {"d1", "d2"}:
+        ctx.unverified("UTCSHIFT", "py:precise_diff", f"offset reads found: {sorted((k, v[0]) for k, v in offs.items())}", m.loc(fn))
+        return
+    outer = None
+    for off, (dv, asg) in sorted(offs.items()):
+        blk = asg._parent
+        outer = blk if isinstance(blk, ast.If) else None
+        shifts = []
+        for n in core.walk_fn(fn):
+            if isinstance(n, ast.Assign) and len(n.targets) == 1 and nun(n.targets[0]) == dv and isinstance(n.value, ast.BinOp) \
+                    and isinstance(n.value.op, ast.Sub) and nun(n.value.left) == dv and nun(n.value.right) == off:
+                shifts.append(n)
+            elif isinstance(n, ast.AugAssign) and isinstance(n.op, ast.Sub) and nun(n.target) == dv and nun(n.value) == off:
+                shifts.append(n)
+        if len(shifts) != 1:
+            ctx.ob("UTCSHIFT.shift", f"py:precise_diff/{dv}", False, f"{len(shifts)} statements `{dv} = {dv} - {off}`; each end point is moved to UTC exactly once", m.loc(asg))
+            continue
+        sh = shifts[0]
+        guards = []
+        p = sh._parent
+        while p is not None and p is not blk and p is not fn:
+            if isinstance(p, ast.If):
+                guards.append(nun(p.test) if sh in ast.walk(ast.Module(p.body, [])) else f"not ({nun(p.test)})")
+            p = p._parent
+        ok_g = {off, f"{off} is not None", f"{off} is not None and {off}", f"{off} != datetime.timedelta(0)", f"{off} != timedelta(0)"}
+        bad = [g for g in guards if g not in ok_g]
+        ctx.ob("UTCSHIFT.shift", f"py:precise_diff/{dv}", not bad and p is blk,
+               f"`{nun(sh)}` runs under {guards or 'no guard'}; it may only be skipped when {off} itself is zero or None "
+               f"(equal non-zero offsets still move both end points, possibly across a day or month boundary)", m.loc(sh))
+    if outer is None:
+        ctx.unverified("UTCSHIFT.when", "py:precise_diff", "offsets are not read inside an if block", m.loc(fn))
+        return
+    from .C15 import py_bool_table
+    from ..rules.canon import Canon
+    can = Canon({})
+    # the flag that says 'same zone name': defined as `tz1 == tz2 and tz1 is not None`
+    try:
+        got = py_bool_table(outer.test, can)
+        want = py_bool_table(ast.parse("not in_same_tz or total_days == 0", mode="eval").body, can)
+        ctx.ob("UTCSHIFT.when", "py:precise_diff/condition", got == want,
+               f"the UTC normalisation runs under `{nun(outer.test)}`; must be `not in_same_tz or total_days == 0`", m.loc(outer))
+    except core.Unsupported as e:
+        ctx.unverified("UTCSHIFT.when", "py:precise_diff/condition", str(e), m.loc(outer))
+    flag = [n for n in core.walk_fn(fn) if isinstance(n, ast.Assign) and nun(n.targets[0]) == "in_same_tz" and not core.is_const(n.value, False)]
+    ok = len(flag) == 1 and nun(flag[0].value) in ("tz1 == tz2 and tz1 is not None", "tz1 is not None and tz1 == tz2")
+    ctx.ob("UTCSHIFT.when", "py:precise_diff/in_same_tz", ok, f"in_same_tz = {[nun(x.value) for x in flag]}; same zone means equal, known zone names", m.loc(fn))
 
 
 def run(ctx) -> None:
     ctx.explanation = EXPLANATION
     hm = pmod("_helpers")
     fn = hm.func("precise_diff")
+    _py_utc_shift(ctx, hm, fn)
     roles = py_roles(fn)
     pc = py_chain(ctx, hm, fn)
     ctx.ob("BORROW.chain", "py:precise_diff", pc == WANT_CHAIN,
@@ -426,6 +711,8 @@ def run(ctx) -> None:
                f"Rust borrow chain {rc}; must equal {WANT_CHAIN} (and the Python one)", "rust/src/python/helpers.rs")
         _rs_outputs(ctx, f)
         _rs_symmetry(ctx, f, sf)
+        _rs_utc_reference(ctx, mir, f, sf)
+        _rs_order_key(ctx, mir, sf)
         if py_region is not None:
             try:
                 rs_region = _month_region_rs(f, sf)
@@ -441,8 +728,14 @@ def run(ctx) -> None:
     _backend_switch(ctx)
     _interval_props(ctx)
     from ..rules import addduration as AD
+    from . import C15
+    C15.clamp_dependencies(ctx)
     AD.month_clamp_order(ctx)    # a + (b - a) == b relies on the month shift / clamp of add_duration
     ctx.expect_min("BORROW", 6)
+    ctx.expect_min("UTCSHIFT", 4)
+    if mir is not None:
+        ctx.expect_min("ORDER.key", 2)
+        ctx.expect_min("UTCSHIFT", 6)
     ctx.expect_min("SIGN.outputs", 9)
     ctx.expect_min("INTERVAL", 10)
     ctx.assumptions += ["rustc --emit=mir reflects the compiled helper; debug names in MIR are the source variable names"]
